@@ -150,8 +150,14 @@ Section Gen.
            else [(v_qname var, enc (v_format var) x)]
     end.
 
+  (* convert_element adds xsi:nil="true" to a falsy value of a nillable field (the writer drops it
+     again when the element has content) *)
+  Definition nil_attr_g (var : xvar) (x : value) : list (qname * wval) :=
+    if v_nillable var && negb (py_truthy x) then [(XSI_NIL, WP (PStr TRUE_STR))] else [].
+  Lemma nil_attr_g_nonil var x : v_nillable var = false -> nil_attr_g var x = [].
+  Proof. intros H. unfold nil_attr_g. rewrite H. reflexivity. Qed.
   Definition g_prim (var : xvar) (x : value) : bitem :=
-    BNode (v_qname var) [] [BData (enc (v_format var) x)].
+    BNode (v_qname var) (nil_attr_g var x) [BData (enc (v_format var) x)].
   (* xsi:type of a model instance of class k' held by the field var (EventGenerator.xsi_type) *)
   Definition xsi_for (var : xvar) (k' : cls) : option qname :=
     if existsb (ptype_eqb (TClass k')) (v_types var) then None
@@ -382,7 +388,7 @@ Section Gen.
                  end)
              \/ (t = TQName /\ v_tokens_factory var = None /\ v_default var = DNone)).
   Proof.
-    unfold wf_attr. intros H. peel H H4. peel H H3. peel H H2. peel H H1. peel H Hnw. peel H H0.
+    unfold wf_attr. intros H. peel H H4. peel H H3. peel H H2. peel H H1. peel H Hnw. peel H Hnl. peel H H0.
     destruct (v_clazz var); [discriminate|]. destruct (v_factory var); [discriminate|].
     apply negb_true_iff in H3.
     unfold var_type in H4. destruct (v_types var) as [|t [|? ?]] eqn:Et; try discriminate.
@@ -481,7 +487,7 @@ Section Gen.
   (* ---------------------------------------------------------------- next_value without sequence groups *)
   Lemma next_value_loop_plain obj (X : xvar -> value) vars : forall fuel,
     (length vars < fuel)%nat ->
-    (forall var, In var vars -> v_sequence var = None /\ v_nillable var = false
+    (forall var, In var vars -> v_sequence var = None /\ (v_nillable var = false \/ X var <> VNone)
                                /\ getattr obj (v_name var) = Ok (X var)) ->
     next_value_loop fuel obj vars
     = Ok (flat_map (fun var => match X var with VNone => [] | x => [(var, x)] end) vars).
@@ -491,7 +497,8 @@ Section Gen.
     - destruct fuel; [cbn in Hf; lia|]. cbn [next_value_loop].
       destruct (H var (or_introl eq_refl)) as [Hs [Hnil Hg]]. rewrite Hs, Hg. cbn [gbind].
       rewrite IH; [|cbn in Hf; lia|intros v Hv; apply H; right; exact Hv]. cbn [gbind flat_map].
-      unfold emit. rewrite Hnil. destruct (X var); reflexivity.
+      unfold emit. destruct Hnil as [Hnil|Hnil]; [rewrite Hnil; destruct (X var); reflexivity|].
+      destruct (X var); try reflexivity. congruence.
   Qed.
 
   (* ---------------------------------------------------------------- what next_value yields *)
@@ -546,7 +553,8 @@ Section Gen.
   Lemma pairs_spec_plain cl fs m :
     map fst fs = map v_name (get_all_vars m) ->
     (forall var, In var (get_element_vars m) -> In var (get_all_vars m)) ->
-    (forall var, In var (get_element_vars m) -> v_sequence var = None /\ v_nillable var = false) ->
+    (forall var, In var (get_element_vars m) ->
+       v_sequence var = None /\ (v_nillable var = false \/ field_of fs var <> VNone)) ->
     NoDup (map v_index (get_element_vars m)) ->
     pairs_spec cl fs m (flat_map (emit1 fs) (get_element_vars m)).
   Proof.
@@ -578,12 +586,12 @@ Section Gen.
 
   (* ---------------------------------------------------------------- element fields *)
   Lemma var_common_inv var : var_common var = true ->
-    v_init var = true /\ v_mixed var = false /\ v_any_type var = false /\ v_nillable var = false
+    v_init var = true /\ v_mixed var = false /\ v_any_type var = false /\ True
     /\ v_elements var = [] /\ v_wildcards var = [] /\ True /\ True
     /\ v_index var <> 0.
   Proof.
-    unfold var_common. intros H. peel H H7. peel H H4. peel H H3. peel H H2. peel H H1. peel H H0.
-    apply negb_true_iff in H0, H1, H2, H7. apply N.eqb_neq in H7.
+    unfold var_common. intros H. peel H H7. peel H H4. peel H H3. peel H H1. peel H H0.
+    apply negb_true_iff in H0, H1, H7. apply N.eqb_neq in H7.
     destruct (v_elements var); [|discriminate]. destruct (v_wildcards var); [|discriminate].
     repeat split; assumption.
   Qed.
@@ -596,7 +604,7 @@ Section Gen.
             | Some f => factory_default f (v_default var) = true
             end.
   Proof.
-    unfold wf_text. intros H. peel H Hsq. peel H H4. peel H H3. peel H H2. peel H Hnw. peel H H1.
+    unfold wf_text. intros H. peel H Hsq. peel H H4. peel H H3. peel H H2. peel H Hnw. peel H Hnl. peel H H1.
     split; [exact H|]. split; [exact H1|].
     unfold var_type in H4. destruct (v_types var) as [|t [|? ?]]; try discriminate.
     exists t. split; [reflexivity|].
@@ -617,16 +625,26 @@ Section Gen.
   Qed.
 
   Lemma convert_element_plain var x w :
-    v_nillable var = false -> v_any_type var = false ->
+    v_any_type var = false ->
     encode_primitive c u (v_format var) x = Ok w ->
-    convert_element c u x var = Ok [WStart (v_qname var); WData w; WEnd (v_qname var)].
+    convert_element c u x var
+    = Ok (WStart (v_qname var) :: map (fun a => WAttr (fst a) (snd a)) (nil_attr_g var x) ++ [WData w; WEnd (v_qname var)]).
   Proof.
-    intros Hn Ha He. unfold convert_element. rewrite Hn, Ha, He. cbn [andb gbind].
-    destruct x; try reflexivity; rewrite andb_false_r; reflexivity.
+    intros Ha He. unfold convert_element, nil_attr_g. rewrite Ha, He. cbn [gbind].
+    assert (Ety : match x with
+                  | VNone => []
+                  | _ => if negb (is_empty_str x) && false
+                         then let '(dt, is_string) := datatype_of c x in if is_string then [] else [ev_type dt]
+                         else []
+                  end = @nil wevent).
+    { destruct x; try reflexivity; rewrite andb_false_r; reflexivity. }
+    rewrite Ety. destruct (v_nillable var && negb (py_truthy x)); reflexivity.
   Qed.
 
   Lemma bflat_prim var x :
-    bflat (g_prim var x) = [WStart (v_qname var); WData (enc (v_format var) x); WEnd (v_qname var)].
+    bflat (g_prim var x)
+    = WStart (v_qname var) :: map (fun a => WAttr (fst a) (snd a)) (nil_attr_g var x)
+      ++ [WData (enc (v_format var) x); WEnd (v_qname var)].
   Proof. reflexivity. Qed.
 
   Definition kind_elem (var : xvar) : Prop := v_is KElement var = true /\ v_is KText var = false /\ v_is KElements var = false /\ v_is KWildcard var = false.
@@ -635,12 +653,13 @@ Section Gen.
 
   (* the recursive calls reached from an element field: one unit of fuel each *)
   Lemma run_anytype_prim f var x w :
-    kind_elem var -> v_nillable var = false -> v_any_type var = false ->
+    kind_elem var -> v_any_type var = false ->
     (match x with VP _ | VList _ _ => True | _ => False end) ->
     encode_primitive c u (v_format var) x = Ok w ->
-    run c u ign (S f) (CAnyType x var) = Ok [WStart (v_qname var); WData w; WEnd (v_qname var)].
+    run c u ign (S f) (CAnyType x var)
+    = Ok (WStart (v_qname var) :: map (fun a => WAttr (fst a) (snd a)) (nil_attr_g var x) ++ [WData w; WEnd (v_qname var)]).
   Proof.
-    intros [Hk _] Hn Ha Hx He. cbn [run]. destruct x; try destruct Hx; rewrite Hk; apply convert_element_plain; assumption.
+    intros [Hk _] Ha Hx He. cbn [run]. destruct x; try destruct Hx; rewrite Hk; apply convert_element_plain; assumption.
   Qed.
 
   Lemma run_value_single f var x :
@@ -715,21 +734,57 @@ Section Gen.
   Proof.
     unfold wf_elem. intros H. peel H H1. peel H Hwo. peel H Hq. peel H H0. split; [apply kind_elem_of; exact H|]. split; [exact H0|].
     unfold var_type in H1. destruct (v_types var) as [|t [|? ?]]; try discriminate.
-    assert (Hsimple : simple_type t = true -> simple_type t && match v_clazz var with None => true | Some _ => false end
-              && match v_factory var, v_tokens_factory var with
-                 | None, None => match v_default var with DNone | DValue (VP _) => true | _ => false end
-                 | Some f, _ => factory_default f (v_default var)
-                 | None, Some f => factory_default f (v_default var)
-                 end = true ->
+    assert (Hsimple : forall b : bool, simple_type t = true ->
+              simple_type t && match v_clazz var with None => true | Some _ => false end && b = true ->
               exists t0, [t] = [t0] /\ simple_type t0 = true /\ v_clazz var = None).
-    { intros Hs Hx. peel Hx Hx2. peel Hx Hx1. exists t. split; [reflexivity|]. split; [exact Hs|].
+    { intros b Hs Hx. peel Hx Hx2. peel Hx Hx1. exists t. split; [reflexivity|]. split; [exact Hs|].
       destruct (v_clazz var); [discriminate|reflexivity]. }
-    destruct t as [| | | | | | | | | | | | |e|k]; try (right; left; apply Hsimple; [reflexivity|exact H1]); try discriminate H1.
-    - right. right. peel H1 H3. peel H1 H2. split; [reflexivity|].
+    destruct t as [| | | | | | | | | | | | |e|k]; try (right; left; apply (Hsimple _ eq_refl H1)); try discriminate H1.
+    - right. right. peel H1 H3. peel H1 H2. peel H1 H4. split; [reflexivity|].
       destruct (v_clazz var); [discriminate|]. destruct (v_tokens_factory var); [discriminate|]. split; reflexivity.
-    - left. exists k. peel H1 H3. peel H1 H2. split; [reflexivity|].
-      destruct (v_clazz var) as [k'|]; cbn in H1; [|discriminate]. apply N.eqb_eq in H1. subst k'.
+    - left. exists k. peel H1 H3. peel H1 H2. peel H1 H4. split; [reflexivity|].
+      destruct (v_clazz var) as [k'|]; cbn in H4; [|discriminate]. apply N.eqb_eq in H4. subst k'.
       destruct (v_tokens_factory var); [discriminate|]. split; reflexivity.
+  Qed.
+
+  (* where nillable is allowed: fields of a simple type, no tokens, no value default *)
+  Lemma wf_elem_nil var : wf_elem var = true -> v_nillable var = true ->
+    exists t, v_types var = [t] /\ simple_type t = true /\ v_clazz var = None /\ v_tokens_factory var = None.
+  Proof.
+    unfold wf_elem. intros H Hn. peel H H1. rewrite Hn in H1.
+    unfold var_type in H1. destruct (v_types var) as [|t [|? ?]]; try discriminate.
+    assert (Hsimple : simple_type t && match v_clazz var with None => true | Some _ => false end
+              && match v_factory var, v_tokens_factory var with
+                 | None, None => match v_default var with
+                                 | DNone => true
+                                 | DValue (VP _) => negb true
+                                 | _ => false
+                                 end
+                 | Some f, None => factory_default f (v_default var)
+                 | Some f, Some _ => negb true && factory_default f (v_default var)
+                 | None, Some f => negb true && factory_default f (v_default var)
+                 end = true ->
+              exists t0, [t] = [t0] /\ simple_type t0 = true /\ v_clazz var = None /\ v_tokens_factory var = None).
+    { intros Hx. peel Hx Hx2. peel Hx Hx1. exists t. split; [reflexivity|]. split; [exact Hx|].
+      destruct (v_clazz var); [discriminate|]. split; [reflexivity|].
+      destruct (v_factory var), (v_tokens_factory var); try discriminate Hx2; reflexivity. }
+    destruct t as [| | | | | | | | | | | | |e|k]; try (apply Hsimple; exact H1); discriminate H1.
+  Qed.
+
+  Lemma wf_elem_nonil_class var k : wf_elem var = true -> v_types var = [TClass k] -> v_nillable var = false.
+  Proof.
+    intros Hw Ht. destruct (v_nillable var) eqn:En; [|reflexivity].
+    destruct (wf_elem_nil var Hw En) as [t [Ht' [Hs _]]]. rewrite Ht in Ht'. inversion Ht'; subst t. discriminate Hs.
+  Qed.
+  Lemma wf_elem_nonil_qname var : wf_elem var = true -> v_types var = [TQName] -> v_nillable var = false.
+  Proof.
+    intros Hw Ht. destruct (v_nillable var) eqn:En; [|reflexivity].
+    destruct (wf_elem_nil var Hw En) as [t [Ht' [Hs _]]]. rewrite Ht in Ht'. inversion Ht'; subst t. discriminate Hs.
+  Qed.
+  Lemma wf_elem_nonil_tokens var tf : wf_elem var = true -> v_tokens_factory var = Some tf -> v_nillable var = false.
+  Proof.
+    intros Hw Ht. destruct (v_nillable var) eqn:En; [|reflexivity].
+    destruct (wf_elem_nil var Hw En) as [t [_ [_ [_ Htf]]]]. congruence.
   Qed.
 
   Lemma wf_elem_qname var : wf_elem var = true -> v_qname var <> [].
@@ -741,6 +796,17 @@ Section Gen.
   Proof.
     unfold wf_attr. intros H. peel H H4. peel H H3. peel H H2. peel H H1. peel H Hnw.
     unfold no_wrapper in Hnw. destruct (v_wrapper_qname var); [discriminate|reflexivity].
+  Qed.
+
+  Lemma wf_attr_nonil var : wf_attr var = true -> v_nillable var = false.
+  Proof.
+    unfold wf_attr. intros H. peel H H4. peel H H3. peel H H2. peel H H1. peel H Hnw. peel H Hnl.
+    apply negb_true_iff in Hnl. exact Hnl.
+  Qed.
+  Lemma wf_text_nonil var : wf_text var = true -> v_nillable var = false.
+  Proof.
+    unfold wf_text. intros H. peel H Hsq. peel H H4. peel H H3. peel H H2. peel H Hnw. peel H Hnl.
+    apply negb_true_iff in Hnl. exact Hnl.
   Qed.
 
   Lemma wf_text_nofactory var : wf_text var = true -> v_factory var = None.
@@ -1166,10 +1232,13 @@ Section Gen.
         apply (nodup_app_apart v_index a b (fst v1) (fst v2) Hnd Ha Hb). unfold idxf in *. congruence.
     Qed.
 
-    Lemma seg_plain var : getattr obj (v_name var) = Ok (X var) -> v_nillable var = false -> Seg [var] (emit var (X var)).
+    Lemma seg_plain var : getattr obj (v_name var) = Ok (X var) -> (v_nillable var = false \/ X var <> VNone) ->
+      Seg [var] (emit var (X var)).
     Proof.
-      intros _ Hn. unfold emit. rewrite Hn.
-      destruct (X var) eqn:Ex.
+      intros _ Hn. unfold emit.
+      assert (En : (if v_nillable var then [(var, VNone)] else []) = [] \/ X var <> VNone).
+      { destruct Hn as [Hn|Hn]; [left; rewrite Hn; reflexivity|right; exact Hn]. }
+      destruct (X var) eqn:Ex; [destruct En as [En|En]; [rewrite En|congruence]|..].
       { split; [intros vv []|]. split; [|constructor]. intros v' [<-|[]]. fold X. rewrite Ex. reflexivity. }
       all: split; [intros vv [<-|[]]; cbn [fst snd]; split; [left; reflexivity|]; split; [discriminate|]; left;
                      unfold pair_whole; cbn [fst snd]; symmetry; exact Ex|];
@@ -1193,7 +1262,7 @@ Section Gen.
     Lemma loop_spec : forall fuel sf vars,
       (length vars < fuel)%nat -> (length vars < sf)%nat ->
       NoDup (map v_index vars) ->
-      (forall var, In var vars -> getattr obj (v_name var) = Ok (X var) /\ v_nillable var = false) ->
+      (forall var, In var vars -> getattr obj (v_name var) = Ok (X var) /\ (v_nillable var = false \/ X var <> VNone)) ->
       (forall var, In var vars -> v_tokens_factory var = None -> seq_shape var (X var)) ->
       seq_spans_ok sf vars = true ->
       exists out, next_value_loop fuel obj vars = Ok out /\ Seg vars out.
@@ -1211,10 +1280,11 @@ Section Gen.
         assert (Hgok : group_ok g).
         { split; [rewrite map_app in Hnd; apply (nodup_app_l _ _ Hnd)|].
           intros v Hv. rewrite forallb_forall in Hmem. specialize (Hmem v Hv). unfold seq_member, no_wrapper in Hmem.
-          apply andb_true_iff in Hmem as [Hw Ht].
+          apply andb_true_iff in Hmem as [Hmem Hnl]. apply andb_true_iff in Hmem as [Hw Ht].
+          apply negb_true_iff in Hnl.
           destruct (v_wrapper_qname v) eqn:Ewq; [discriminate Hw|]. destruct (v_tokens_factory v) eqn:Etf; [discriminate Ht|].
-          destruct (Hg v (in_or_app _ _ _ (or_introl Hv))) as [H1 H2].
-          unfold member_ok. rewrite Ewq, Etf. split; [exact H1|split; [exact H2|split; [reflexivity|split; [reflexivity|]]]].
+          destruct (Hg v (in_or_app _ _ _ (or_introl Hv))) as [H1 _].
+          unfold member_ok. rewrite Ewq, Etf. split; [exact H1|split; [exact Hnl|split; [reflexivity|split; [reflexivity|]]]].
           apply Hsh; [apply in_or_app; left; exact Hv|exact Etf]. }
         rewrite (seq_fuel_eq g (fun v Hv => proj1 (proj2 Hgok v Hv))).
         destruct (seq_rolling_spec g Hgok (S (maxlen g)) 0) as [o1 [Hr1 HP1]]; [lia|]. rewrite Hr1. cbn [gbind].
@@ -1241,38 +1311,35 @@ Section Gen.
     Qed.
   End SeqGroup.
 
-  Lemma evar_nonillable m var : wf_class m = true -> In var (get_element_vars m) -> v_nillable var = false.
-  Proof.
-    intros Hwc Hin. destruct (wf_class_evar m var Hwc Hin) as [[Hwe _]|[_ [Hwt _]]].
-    - destruct (wf_elem_inv var Hwe) as [_ [Hc _]]. destruct (var_common_inv var Hc) as [_ [_ [_ [Hn _]]]]. exact Hn.
-    - destruct (wf_text_inv var Hwt) as [_ [Hwt0 _]]. destruct (var_common_inv var Hwt0) as [_ [_ [_ [Hn _]]]]. exact Hn.
-  Qed.
-
   (* without sequence groups *)
   Lemma pairs_plain cl fs m :
     wf_class m = true -> map fst fs = map v_name (get_all_vars m) ->
-    (forall var, In var (get_element_vars m) -> v_sequence var = None) ->
+    (forall var, In var (get_element_vars m) -> v_sequence var = None /\ (v_nillable var = false \/ field_of fs var <> VNone)) ->
     pairs cl fs m = flat_map (emit1 fs) (get_element_vars m).
   Proof.
     intros Hwc Hnames Hseq. apply pairs_eq.
-    apply pairs_spec_plain; [exact Hnames| | |apply evars_indices_nodup; exact Hwc].
-    - intros var Hv. apply (in_allvars m var Hwc). right; exact Hv.
-    - intros var Hin. split; [apply Hseq; exact Hin|apply (evar_nonillable m var Hwc Hin)].
+    apply pairs_spec_plain; [exact Hnames| |exact Hseq|apply evars_indices_nodup; exact Hwc].
+    intros var Hv. apply (in_allvars m var Hwc). right; exact Hv.
   Qed.
 
   (* what next_value yields for a fitting instance *)
   Lemma class_pairs cl fs m :
     wf_class m = true -> map fst fs = map v_name (get_all_vars m) ->
     (forall e v, In e (m_elements m) -> In v (snd e) -> v_tokens_factory v = None -> seq_shape v (field_of fs v)) ->
+    (forall e v, In e (m_elements m) -> In v (snd e) -> v_nillable v = true -> field_of fs v <> VNone) ->
     pairs_spec cl fs m (pairs cl fs m).
   Proof.
-    intros Hwc Hnames Hsh.
+    intros Hwc Hnames Hsh Hnn.
+    assert (Hnil : forall var, In var (get_element_vars m) -> v_nillable var = false \/ field_of fs var <> VNone).
+    { intros var Hin. destruct (wf_class_evar m var Hwc Hin) as [[_ Hi]|[_ [Hwt _]]].
+      - destruct (v_nillable var) eqn:En; [right; apply (Hnn _ var Hi (or_introl eq_refl) En)|left; reflexivity].
+      - left. apply (wf_text_nonil var Hwt). }
     destruct (m_text m) as [tv|] eqn:Htx.
     - (* a Text field: no sequence group *)
       assert (H : pairs_spec cl fs m (flat_map (emit1 fs) (get_element_vars m))).
       { apply pairs_spec_plain; [exact Hnames| | |apply evars_indices_nodup; exact Hwc].
         - intros var Hv. apply (in_allvars m var Hwc). right; exact Hv.
-        - intros var Hin. split; [|apply (evar_nonillable m var Hwc Hin)].
+        - intros var Hin. split; [|apply (Hnil var Hin)].
           destruct (wf_class_evar m var Hwc Hin) as [[_ Hi]|[_ [Hwt _]]]; [|apply (wf_text_noseq var Hwt)].
           destruct (wf_class_inv m Hwc) as [F1 F2 F3 F4 F5 F6 F7 F8 F9 F10 F11 F12 F13].
           rewrite Htx in F11. destruct F11 as [_ Hnoe]. rewrite Hnoe in Hi. destruct Hi. }
@@ -1280,7 +1347,7 @@ Section Gen.
     - set (vars := get_element_vars m).
       destruct (loop_spec cl fs (S (length vars)) (S (length vars)) vars) as [out [Hrun [Sa [Sb Sc]]]]; try lia.
       + apply evars_indices_nodup; exact Hwc.
-      + intros var Hv. split; [|apply (evar_nonillable m var Hwc Hv)].
+      + intros var Hv. split; [|apply (Hnil var Hv)].
         apply (getattr_field cl fs m var Hnames). apply (in_allvars m var Hwc). right; exact Hv.
       + intros var Hv Ht. destruct (wf_class_evar m var Hwc Hv) as [[_ Hi]|[Ht' _]]; [|congruence].
         apply (Hsh _ var Hi (or_introl eq_refl) Ht).
@@ -1296,7 +1363,10 @@ Section Gen.
     pairs_spec cl fs m (pairs cl fs m).
   Proof.
     intros Hwc Hn Hfe. apply class_pairs; try assumption.
-    intros e v He Hv Ht. apply (fits_elem_shape rec v _ (Hfe e v He Hv) Ht).
+    - intros e v He Hv Ht. apply (fits_elem_shape rec v _ (Hfe e v He Hv) Ht).
+    - intros e v He Hv Hnl Ex. pose proof (Hfe e v He Hv) as Hf. rewrite Ex in Hf. unfold Fits.fits_elem in Hf.
+      rewrite Hnl in Hf. destruct (v_factory v), (v_tokens_factory v); try discriminate Hf.
+      destruct (v_default v); discriminate Hf.
   Qed.
 
   Lemma wrap_ok var (r : gres (list wevent)) items :
@@ -1353,13 +1423,14 @@ Section Gen.
         destruct (wf_class_evar m var Hwc Hvar) as [[Hwe Hine]|[Htx [Hwt Hnoe]]].
         - (* an element field *)
           destruct (wf_elem_inv var Hwe) as [Hk [Hc Hty]].
-          destruct (var_common_inv var Hc) as [_ [Hmx [Hany [Hn [_ [_ [_ [_ _]]]]]]]].
+          destruct (var_common_inv var Hc) as [_ [Hmx [Hany [_ [_ [_ [_ [_ _]]]]]]]].
           rewrite (g_field_some (gobj n) var x Hxn). apply wrap_ok.
           pose proof (Hfe _ var Hine (or_introl eq_refl)) as Hfv0.
           assert (Hkt : v_is KText var = false) by (destruct Hk as [_ [Hkt _]]; exact Hkt).
           unfold g_items. rewrite Hkt.
           destruct Hty as [[k [Htys [Hcl Htf]]]|Hty2].
           + (* class typed *)
+            pose proof (wf_elem_nonil_class var k Hwe Htys) as Hn.
             rewrite Htf.
             assert (Hobj : forall y, (odepth y <= odepth x)%nat -> fits_item (fits n) var y = true ->
                      forall f', (5 * odepth y + 2 <= f')%nat ->
@@ -1420,7 +1491,7 @@ Section Gen.
             assert (Hprim : forall y f', fits_item (fits n) var y = true ->
                       run c u ign (S f') (CAnyType y var) = Ok (bflat (g_prim var y))).
             { intros y f' Hfy. destruct (Hleaf y Hfy) as [p [-> He]].
-              rewrite (run_anytype_prim f' var (VP p) (enc_p (v_format var) p) Hk Hn Hany I He).
+              rewrite (run_anytype_prim f' var (VP p) (enc_p (v_format var) p) Hk Hany I He).
               reflexivity. }
             destruct Hsrc as [Hw|[f0 [t0 [l0 [Hf0 [Htf0 [_ [El Hil]]]]]]]]; cbn [fst snd] in *.
             2:{ (* one item of a list field inside a sequence group *)
@@ -1436,6 +1507,7 @@ Section Gen.
             unfold Fits.fits_elem in Hfv.
             destruct (v_tokens_factory var) as [tf|] eqn:Etf.
             * (* tokens *)
+              pose proof (wf_elem_nonil_tokens var tf Hwe Etf) as Hn.
               destruct f as [|f0]; [cbn [odepth] in *; lia|].
               rewrite (run_value_tokens f0 var x tf Hmx Hk Etf). cbn [gbind].
               destruct (v_factory var) as [fa|] eqn:Efa.
@@ -1447,7 +1519,7 @@ Section Gen.
                  rewrite (concatM_flat _ (fun z => bflat (g_prim var z))).
                  { rewrite flat_map_map. reflexivity. }
                  intros z Hz. destruct (fits_tokens_inv var tf z t Htys (Hfl z Hz)) as [tz [lz [-> [_ [Htk _]]]]].
-                 rewrite (convert_element_plain var (VList tz lz) _ Hn Hany (encode_tokens t _ tz lz Htk)). reflexivity.
+                 rewrite (convert_element_plain var (VList tz lz) _ Hany (encode_tokens t _ tz lz Htk)), bflat_prim. reflexivity.
               -- destruct x as [| |tt l| | | |] eqn:Ex; try (cbn in Hfv; discriminate Hfv).
                  destruct l as [|y l'].
                  { unfold convert_tokens. cbn [py_truthy nonempty orb]. rewrite Hn. reflexivity. }
@@ -1456,8 +1528,8 @@ Section Gen.
                  assert (Hy : match y with VList _ _ => False | _ => True end).
                  { cbn [forallb] in Htk. apply andb_true_iff in Htk as [Hy _].
                    destruct (token_is_leaf _ _ _ Hy) as [p [-> _]]. exact I. }
-                 pose proof (convert_element_plain var (VList tt (y :: l')) _ Hn Hany (encode_tokens t _ tt (y :: l') Htk)) as Hce.
-                 destruct y; try destruct Hy; cbn [flat_map]; rewrite app_nil_r; rewrite Hce; reflexivity.
+                 pose proof (convert_element_plain var (VList tt (y :: l')) _ Hany (encode_tokens t _ tt (y :: l') Htk)) as Hce.
+                 destruct y; try destruct Hy; cbn [flat_map]; rewrite app_nil_r; rewrite Hce, bflat_prim; reflexivity.
             * destruct (v_factory var) as [fa|] eqn:Efa.
               -- destruct x as [| |tt l| | | |]; try discriminate Hfv. apply andb_true_iff in Hfv as [_ Hfl].
                  destruct f as [|f0]; [cbn [odepth] in *; lia|].
